@@ -334,19 +334,20 @@ Proof.
   unfold nonempty in H. lia.
 Qed.
 
-Lemma draw_fresh st img hash pos : nonempty img -> lookup (image_id hash) (k_imgs st) = None ->
+Lemma draw_fresh st img hash pos : nonempty img -> lookup (image_id st hash) (k_imgs st) = None ->
   draw st img hash pos =
-  (emit_chunks true (image_id hash) (im_height img) (im_width img) (qval st) (tx_chunks img)
-     ++ gfx (kvs_put (image_id hash) (placement_id pos) (qval st)) true [],
-   mkKitty ((image_id hash, (img, hash)) :: k_imgs st) (k_suppress st)).
+  (emit_chunks true (image_id st hash) (im_height img) (im_width img) (qval st) (tx_chunks img)
+     ++ gfx (kvs_put (image_id st hash) (placement_id pos) (qval st)) true [],
+   mkKitty ((image_id st hash, (img, hash)) :: k_imgs st) (ids_note (k_ids st) hash) (k_suppress st)).
 Proof.
   intros [Hh Hw] Hl. unfold draw. replace ((im_height img =? 0) || (im_width img =? 0)) with false by lia.
   rewrite Hl. reflexivity.
 Qed.
 
-Lemma draw_cached st img hash pos x : nonempty img -> lookup (image_id hash) (k_imgs st) = Some x ->
+Lemma draw_cached st img hash pos x : nonempty img -> lookup (image_id st hash) (k_imgs st) = Some x ->
   draw st img hash pos =
-  (gfx (kvs_put (image_id hash) (placement_id pos) (qval st)) true [], mkKitty (k_imgs st) (k_suppress st)).
+  (gfx (kvs_put (image_id st hash) (placement_id pos) (qval st)) true [],
+   mkKitty (k_imgs st) (ids_note (k_ids st) hash) (k_suppress st)).
 Proof.
   intros [Hh Hw] Hl. unfold draw. replace ((im_height img =? 0) || (im_width img =? 0)) with false by lia.
   rewrite Hl. reflexivity.
@@ -378,14 +379,14 @@ Proof.
 Qed.
 
 Lemma parse_draw_fresh st img hash pos : image_wf img -> nonempty img ->
-  lookup (image_id hash) (k_imgs st) = None ->
+  lookup (image_id st hash) (k_imgs st) = None ->
   parse_stream (fst (draw st img hash pos)) =
-  Some (tx_items (image_id hash) (qval st) img ++ [put_item (image_id hash) (placement_id pos) (qval st)]).
+  Some (tx_items (image_id st hash) (qval st) img ++ [put_item (image_id st hash) (placement_id pos) (qval st)]).
 Proof.
   intros Hwf Hne Hl. rewrite (draw_fresh st img hash pos Hne Hl). cbn [fst].
   destruct (tx_chunks_spec img Hwf Hne) as (_ & Hesc & _ & _).
   unfold parse_stream, tx_items.
-  set (id := image_id hash). set (q := qval st). set (chs := tx_chunks img) in *.
+  set (id := image_id st hash). set (q := qval st). set (chs := tx_chunks img) in *.
   set (put := gfx (kvs_put id (placement_id pos) q) true []).
   pose proof (emit_chunks_length id (im_height img) (im_width img) q chs true) as HL.
   assert (Hput : (1 <= length put)%nat) by (unfold put, gfx; cbn [length]; lia).
@@ -399,15 +400,15 @@ Proof.
 Qed.
 
 Lemma parse_draw_cached st img hash pos x : nonempty img ->
-  lookup (image_id hash) (k_imgs st) = Some x ->
-  parse_stream (fst (draw st img hash pos)) = Some [put_item (image_id hash) (placement_id pos) (qval st)].
+  lookup (image_id st hash) (k_imgs st) = Some x ->
+  parse_stream (fst (draw st img hash pos)) = Some [put_item (image_id st hash) (placement_id pos) (qval st)].
 Proof.
   intros Hne Hl. rewrite (draw_cached st img hash pos x Hne Hl). cbn [fst].
   apply parse_single_gfx; [discriminate|apply put_clean|constructor|left; reflexivity].
 Qed.
 
-Lemma parse_erase img hash pos :
-  parse_stream (erase img hash pos) = Some [del_item (image_id hash) (option_map placement_id pos)].
+Lemma parse_erase st img hash pos :
+  parse_stream (fst (erase st img hash pos)) = Some [del_item (image_id st hash) (option_map placement_id pos)].
 Proof.
   unfold erase. apply parse_single_gfx; [destruct pos; discriminate|apply del_clean|constructor|right; reflexivity].
 Qed.
@@ -462,12 +463,12 @@ Qed.
 
 (* ---------- the commands of one call, and the bytes followed by anything else ---------- *)
 Definition cached (st : kitty) (hash : N) : bool :=
-  match lookup (image_id hash) (k_imgs st) with Some _ => true | None => false end.
+  match lookup (image_id st hash) (k_imgs st) with Some _ => true | None => false end.
 
 Definition draw_items (st : kitty) (img : image) (hash : N) (pos : N * N) : list item :=
   if (im_height img =? 0) || (im_width img =? 0) then []
-  else if cached st hash then [put_item (image_id hash) (placement_id pos) (qval st)]
-  else tx_items (image_id hash) (qval st) img ++ [put_item (image_id hash) (placement_id pos) (qval st)].
+  else if cached st hash then [put_item (image_id st hash) (placement_id pos) (qval st)]
+  else tx_items (image_id st hash) (qval st) img ++ [put_item (image_id st hash) (placement_id pos) (qval st)].
 
 Lemma nonempty_dec img : {nonempty img} + {~ nonempty img}.
 Proof.
@@ -483,7 +484,7 @@ Proof.
   intros Hwf f rest Hf. unfold draw_items in *.
   destruct (nonempty_dec img) as [Hne|Hne].
   - destruct Hne as [Hh Hw]. replace ((im_height img =? 0) || (im_width img =? 0)) with false in * by lia.
-    unfold cached in *. destruct (lookup (image_id hash) (k_imgs st)) as [x|] eqn:Hl.
+    unfold cached in *. destruct (lookup (image_id st hash) (k_imgs st)) as [x|] eqn:Hl.
     + rewrite (draw_cached st img hash pos x (conj Hh Hw) Hl). cbn [fst length] in *.
       destruct f as [|f]; [lia|]. unfold put_item.
       rewrite parse_gfx; [|discriminate|apply put_clean|constructor|left; reflexivity].
@@ -513,10 +514,10 @@ Lemma draw_items_le_bytes st img hash pos : image_wf img ->
 Proof.
   intros Hwf. unfold draw_items. destruct (nonempty_dec img) as [Hne|Hne].
   - destruct Hne as [Hh Hw]. replace ((im_height img =? 0) || (im_width img =? 0)) with false by lia.
-    unfold cached. destruct (lookup (image_id hash) (k_imgs st)) as [x|] eqn:Hl.
+    unfold cached. destruct (lookup (image_id st hash) (k_imgs st)) as [x|] eqn:Hl.
     + rewrite (draw_cached st img hash pos x (conj Hh Hw) Hl). cbn [fst length]. unfold gfx. cbn [length]. lia.
     + rewrite (draw_fresh st img hash pos (conj Hh Hw) Hl). cbn [fst]. rewrite !app_length. unfold tx_items.
-      pose proof (emit_chunks_length (image_id hash) (im_height img) (im_width img) (qval st) (tx_chunks img) true).
+      pose proof (emit_chunks_length (image_id st hash) (im_height img) (im_width img) (qval st) (tx_chunks img) true).
       assert (Hlen : forall b id h w q chs, length (chunk_items b id h w q chs) = length chs).
       { intros b id h w q chs. revert b. induction chs; intros b; cbn [chunk_items length]; [reflexivity|]. rewrite IHchs. reflexivity. }
       rewrite Hlen. unfold gfx. cbn [length]. lia.
@@ -539,7 +540,7 @@ Definition handle_items (st : kitty) (ev : event) : list item :=
       match lookup id (k_imgs st) with
       | Some (img, hash) =>
           ISave :: IMoveTo (fst (placement_to_pos p) + 1) (snd (placement_to_pos p) + 1)
-          :: draw_items (mkKitty (remove_key id (k_imgs st)) (Some 2)) img hash (placement_to_pos p)
+          :: draw_items (mkKitty (remove_key id (k_imgs st)) (k_ids st) (Some 2)) img hash (placement_to_pos p)
           ++ [IRestore]
       | None => []
       end
@@ -556,7 +557,7 @@ Proof.
   destruct (lookup id (k_imgs st)) as [[img hash]|] eqn:Hl; [|destruct pl; reflexivity].
   destruct pl as [p|]; [|reflexivity].
   specialize (Hwf id img hash Hl).
-  set (st1 := mkKitty (remove_key id (k_imgs st)) (Some 2)).
+  set (st1 := mkKitty (remove_key id (k_imgs st)) (k_ids st) (Some 2)).
   set (pos := placement_to_pos p).
   pose proof (parse_draw_gen st1 img hash pos Hwf) as PD.
   pose proof (draw_items_le_bytes st1 img hash pos Hwf) as LE.
@@ -575,8 +576,61 @@ Qed.
 (* ---------- identifiers ---------- *)
 Definition in_dom (pos : N * N) : Prop := fst pos < 65536 /\ snd pos < 65536.
 
-Lemma image_id_range hash : 1 <= image_id hash <= ID_MAX.
-Proof. unfold image_id, ID_MAX. rewrite max_id_const. zify_divmod. lia. Qed.
+(* every remembered id is a valid one *)
+Definition ids_range (ids : list (N * N)) : Prop := forall h i, lookup h ids = Some i -> 1 <= i <= ID_MAX.
+
+Lemma image_id_base_range hash : 1 <= image_id_base hash <= ID_MAX.
+Proof. unfold image_id_base, ID_MAX. rewrite max_id_const. zify_divmod. lia. Qed.
+
+Lemma probe_range : forall fuel id taken, 1 <= id <= ID_MAX -> 1 <= probe fuel id taken <= ID_MAX.
+Proof.
+  induction fuel as [|f IH]; intros id taken Hid; cbn [probe]; [exact Hid|].
+  destruct (existsb (N.eqb id) taken); [|exact Hid]. apply IH.
+  unfold ID_MAX in *. rewrite max_id_const. zify_divmod. lia.
+Qed.
+
+Lemma id_in_range ids hash : ids_range ids -> 1 <= id_in ids hash <= ID_MAX.
+Proof.
+  intros Hr. unfold id_in. destruct (lookup hash ids) as [i|] eqn:E; [exact (Hr _ _ E)|].
+  apply probe_range, image_id_base_range.
+Qed.
+
+Lemma ids_note_range ids hash : ids_range ids -> ids_range (ids_note ids hash).
+Proof.
+  intros Hr. unfold ids_note. destruct (lookup hash ids) eqn:E; [exact Hr|].
+  intros h i Hl. cbn [lookup] in Hl. destruct (hash =? h); [|exact (Hr _ _ Hl)].
+  inversion Hl; subst. apply id_in_range, Hr.
+Qed.
+
+Lemma image_id_range st hash : ids_range (k_ids st) -> 1 <= image_id st hash <= ID_MAX.
+Proof. apply id_in_range. Qed.
+
+(* once a content has its id it keeps it; other contents are not affected by a new one *)
+Lemma id_in_note_same ids hash : id_in (ids_note ids hash) hash = id_in ids hash.
+Proof.
+  unfold ids_note. destruct (lookup hash ids) eqn:E; [reflexivity|].
+  unfold id_in at 1. cbn [lookup]. rewrite N.eqb_refl. reflexivity.
+Qed.
+
+Lemma lookup_note_same ids hash : lookup hash (ids_note ids hash) = Some (id_in ids hash).
+Proof.
+  unfold ids_note. destruct (lookup hash ids) eqn:E.
+  - unfold id_in. rewrite E. reflexivity.
+  - cbn [lookup]. rewrite N.eqb_refl. reflexivity.
+Qed.
+
+Lemma lookup_note_other ids hash h : h <> hash -> lookup h (ids_note ids hash) = lookup h ids.
+Proof.
+  intros Hne. unfold ids_note. destruct (lookup hash ids); [reflexivity|].
+  cbn [lookup]. replace (hash =? h) with false by lia. reflexivity.
+Qed.
+
+Lemma lookup_note_kept ids hash h i : lookup h ids = Some i -> lookup h (ids_note ids hash) = Some i.
+Proof.
+  intros Hl. destruct (N.eq_dec h hash) as [->|Hne].
+  - rewrite lookup_note_same. unfold id_in. rewrite Hl. reflexivity.
+  - rewrite lookup_note_other by exact Hne. exact Hl.
+Qed.
 
 Lemma placement_id_range pos : 1 <= placement_id pos <= ID_MAX.
 Proof. unfold placement_id, ID_MAX. rewrite max_id_const. zify_divmod. lia. Qed.
@@ -613,8 +667,8 @@ Proof. reflexivity. Qed.
 
 (* ---------- the payload theorem ---------- *)
 Theorem payload_thm img hash pos st :
-  image_wf img -> nonempty img -> lookup (image_id hash) (k_imgs st) = None ->
-  let id := image_id hash in
+  image_wf img -> nonempty img -> ids_range (k_ids st) -> lookup (image_id st hash) (k_imgs st) = None ->
+  let id := image_id st hash in
   let q := qval st in
   let chs := tx_chunks img in
   let tx := chunk_items true id (im_height img) (im_width img) q chs in
@@ -627,7 +681,7 @@ Theorem payload_thm img hash pos st :
   (forall s, t_pending s = None ->
      store_run s tx = store_add_image id (mkTimage (im_width img) (im_height img) (pix_bytes img)) s).
 Proof.
-  intros Hwf Hne Hl id q chs tx.
+  intros Hwf Hne Hr Hl id q chs tx.
   destruct (tx_chunks_spec img Hwf Hne) as (Hn & _ & Hcat & Hshape).
   repeat split.
   - exact (parse_draw_fresh st img hash pos Hwf Hne Hl).
@@ -636,5 +690,124 @@ Proof.
   - apply chunk_items_more, Hn.
   - unfold chs. rewrite Hcat. apply b64_decode_rfc, bytes_ok_flat, pixels_ok, Hwf.
   - apply pix_bytes_length, Hwf.
-  - intros s Hp. apply (store_transmit id q img s Hwf Hne (image_id_range hash) Hp).
+  - intros s Hp. apply (store_transmit id q img s Hwf Hne (image_id_range st hash Hr) Hp).
+Qed.
+
+(* ---------- a new content gets an id that no other content holds ---------- *)
+Definition succ_id (x : N) : N := x mod KITTY_MAX_ID + 1.
+Fixpoint cands (fuel : nat) (id : N) : list N :=
+  match fuel with O => [] | S f => id :: cands f (succ_id id) end.
+
+Lemma existsb_eqb_in x l : existsb (N.eqb x) l = true <-> In x l.
+Proof.
+  rewrite existsb_exists. split.
+  - intros (y & Hy & E). apply N.eqb_eq in E. subst. exact Hy.
+  - intros H. exists x. split; [exact H|apply N.eqb_refl].
+Qed.
+
+Lemma probe_witness : forall fuel id taken,
+  (exists c, In c (cands fuel id) /\ ~ In c taken) -> ~ In (probe fuel id taken) taken.
+Proof.
+  induction fuel as [|f IH]; intros id taken (c & Hc & Hn); [contradiction|].
+  cbn [probe cands] in *. destruct (existsb (N.eqb id) taken) eqn:E.
+  - apply existsb_eqb_in in E. apply IH. exists c. split; [|exact Hn].
+    destruct Hc as [<-|Hc]; [contradiction|exact Hc].
+  - intros Hin. apply existsb_eqb_in in Hin. congruence.
+Qed.
+
+Lemma cands_closed : forall fuel id, 1 <= id <= KITTY_MAX_ID ->
+  cands fuel id = map (fun k => (id - 1 + N.of_nat k) mod KITTY_MAX_ID + 1) (seq 0 fuel).
+Proof.
+  induction fuel as [|f IH]; intros id Hid; [reflexivity|].
+  cbn [cands seq map]. f_equal.
+  - rewrite max_id_const in *. zify_divmod. lia.
+  - rewrite IH by (unfold succ_id; rewrite max_id_const in *; zify_divmod; lia).
+    rewrite <- seq_shift, map_map. apply map_ext. intros k. unfold succ_id.
+    rewrite max_id_const in *. zify_divmod. lia.
+Qed.
+
+Lemma cands_nodup fuel id : 1 <= id <= KITTY_MAX_ID -> N.of_nat fuel <= KITTY_MAX_ID -> NoDup (cands fuel id).
+Proof.
+  intros Hid Hf. rewrite cands_closed by exact Hid.
+  apply NoDup_map_in; [|apply seq_NoDup].
+  intros k j Hk Hj E. apply in_seq in Hk, Hj. rewrite max_id_const in *. zify_divmod. lia.
+Qed.
+
+Lemma cands_length fuel id : length (cands fuel id) = fuel.
+Proof. revert id. induction fuel as [|f IH]; intros id; cbn [cands length]; [reflexivity|]. rewrite IH. reflexivity. Qed.
+
+Lemma fresh_witness (l taken : list N) : NoDup l -> (length taken < length l)%nat ->
+  exists c, In c l /\ ~ In c taken.
+Proof.
+  intros Hnd Hlen.
+  destruct (existsb (fun c => negb (existsb (N.eqb c) taken)) l) eqn:E.
+  - apply existsb_exists in E as (c & Hc & Hn). exists c. split; [exact Hc|].
+    intros Hin. apply existsb_eqb_in in Hin. rewrite Hin in Hn. discriminate.
+  - exfalso. assert (Hincl : incl l taken).
+    { intros c Hc. apply existsb_eqb_in. destruct (existsb (N.eqb c) taken) eqn:Ec; [reflexivity|].
+      assert (existsb (fun c => negb (existsb (N.eqb c) taken)) l = true)
+        by (apply existsb_exists; exists c; split; [exact Hc|rewrite Ec; reflexivity]).
+      congruence. }
+    pose proof (NoDup_incl_length Hnd Hincl). lia.
+Qed.
+
+Theorem probe_fresh fuel id taken : 1 <= id <= KITTY_MAX_ID -> N.of_nat fuel <= KITTY_MAX_ID ->
+  (length taken < fuel)%nat -> ~ In (probe fuel id taken) taken.
+Proof.
+  intros Hid Hf Hlen. apply probe_witness. apply fresh_witness.
+  - apply cands_nodup; assumption.
+  - rewrite cands_length. exact Hlen.
+Qed.
+
+(* the id table: valid ids, each content once, each id once *)
+Record ids_ok (ids : list (N * N)) : Prop := mkIdsOk {
+  io_range : ids_range ids;
+  io_keys : NoDup (map fst ids);
+  io_vals : NoDup (map snd ids);
+  io_room : N.of_nat (length ids) < KITTY_MAX_ID }.
+
+Lemma lookup_in {A} (k : N) (l : list (N * A)) v : lookup k l = Some v -> In (k, v) l.
+Proof.
+  induction l as [|[k' v'] l IH]; [discriminate|]. cbn [lookup].
+  destruct (k' =? k) eqn:E; intros H.
+  - apply N.eqb_eq in E. inversion H. subst. left. reflexivity.
+  - right. apply IH, H.
+Qed.
+
+Lemma lookup_none_notin {A} (k : N) (l : list (N * A)) : lookup k l = None -> ~ In k (map fst l).
+Proof.
+  induction l as [|[k' v'] l IH]; [intros _ H; exact H|]. cbn [lookup map fst].
+  destruct (k' =? k) eqn:E; [discriminate|]. intros H [X|X]; [subst; rewrite N.eqb_refl in E; discriminate|].
+  exact (IH H X).
+Qed.
+
+(* a new content: its id is held by no other content *)
+Lemma id_in_fresh ids hash : ids_ok ids -> lookup hash ids = None -> ~ In (id_in ids hash) (map snd ids).
+Proof.
+  intros [Hr Hk Hv Hroom] Hl. unfold id_in. rewrite Hl.
+  pose proof (image_id_base_range hash) as Hb. unfold ID_MAX in Hb. rewrite <- max_id_const in Hb.
+  apply probe_fresh; [exact Hb|lia|rewrite map_length; lia].
+Qed.
+
+Lemma ids_note_ok ids hash : ids_ok ids -> N.of_nat (S (length ids)) < KITTY_MAX_ID -> ids_ok (ids_note ids hash).
+Proof.
+  intros Hok Hroom'. pose proof Hok as [Hr Hk Hv Hroom]. unfold ids_note.
+  destruct (lookup hash ids) eqn:Hl; [exact Hok|].
+  constructor.
+  - pose proof (ids_note_range ids hash Hr) as X. unfold ids_note in X. rewrite Hl in X. exact X.
+  - cbn [map fst]. constructor; [apply lookup_none_notin, Hl|exact Hk].
+  - cbn [map snd]. constructor; [apply id_in_fresh; assumption|exact Hv].
+  - cbn [length]. exact Hroom'.
+Qed.
+
+(* two contents never share an id *)
+Lemma ids_ok_inj ids h1 h2 i : ids_ok ids -> lookup h1 ids = Some i -> lookup h2 ids = Some i -> h1 = h2.
+Proof.
+  intros [_ _ Hv _] H1 H2. apply lookup_in in H1, H2.
+  induction ids as [|[h v] l IH]; [contradiction|]. cbn [map snd] in Hv. inversion Hv as [|? ? Hn Hv']; subst.
+  destruct H1 as [E1|H1], H2 as [E2|H2].
+  - congruence.
+  - inversion E1; subst. exfalso. apply Hn. apply in_map_iff. exists (h2, i). split; [reflexivity|exact H2].
+  - inversion E2; subst. exfalso. apply Hn. apply in_map_iff. exists (h1, i). split; [reflexivity|exact H1].
+  - exact (IH Hv' H1 H2).
 Qed.
